@@ -3,6 +3,9 @@
 // dimension of every *_simple function first, then those functions join the pool — their documented protocol)
 // exit 0 = no race report and concurrent == sequential; 66 = TSan report (halt_on_error); 3 = output mismatch / table modified.
 #include <pthread.h>
+#include <xmmintrin.h>
+
+#include <atomic>
 #include <unistd.h>
 
 #include <cmath>
@@ -182,10 +185,21 @@ struct ThreadArg {
   std::vector<Call>* calls;
   pthread_barrier_t* bar;
 };
+static std::atomic<int> g_csr_changed{-1};  // index of the first call kind that left the thread's FP control state changed
 static void* thread_main(void* p) {
   ThreadArg* a = (ThreadArg*)p;
   pthread_barrier_wait(a->bar);
-  for (auto& c : *a->calls) c.out = run_call(c.kind, c.dseed);
+  for (auto& c : *a->calls) {
+    // per-thread hidden state: the floating-point control bits (rounding mode, FTZ, DAZ, exception masks) are inherited by threads
+    // spawned later and change what every later floating-point call of this thread returns
+    const unsigned csr0 = _mm_getcsr() & 0xFFC0u;
+    c.out = run_call(c.kind, c.dseed);
+    if ((_mm_getcsr() & 0xFFC0u) != csr0) {
+      int exp = -1;
+      g_csr_changed.compare_exchange_strong(exp, c.kind);
+      _mm_setcsr((_mm_getcsr() & ~0xFFC0u) | csr0);
+    }
+  }
   return nullptr;
 }
 
@@ -248,6 +262,10 @@ int main(int argc, char** argv) {
     pthread_create(&th[t], nullptr, thread_main, &args[t]);
   }
   for (int t = 0; t < T; ++t) pthread_join(th[t], nullptr);
+  if (g_csr_changed.load() >= 0) {
+    printf("MISMATCH call %s left the calling thread's floating-point control state (MXCSR rounding / FTZ / DAZ / mask bits) changed\n", KN[g_csr_changed.load()]);
+    return 3;
+  }
   // sequential re-execution: each call must return bit-for-bit what it returned under concurrency
   std::map<int, int> users;
   for (int t = 0; t < T; ++t) {
